@@ -379,6 +379,99 @@ def multicell_shard(rule, sign, T, gamma=0.5):
     return tally
 
 
+def shared_layer_shard(rule, T):
+    """one trainer, TWO cells of one Biclique layer (two delayed connections ending on one neuron group) with different presynaptic
+    histories: every history of (pre_a, pre_b, post) rides the batch; each connection's accumulated change follows the t_delta formula
+    of its OWN spike times (a monitor shared between the two cells may only observe what both cells observe)."""
+    from inferno.neural import Biclique, LinearDense, DeltaCurrent
+    from inferno.extra import ExactNeuron
+    tally = Tally()
+    dt = 1.0
+    hs = all_histories(T, 3)
+    B = len(hs)
+    spec = Cellspec("dense", 1, 1)
+    param = "delay" if rule in DELAY_RULES else "weight"
+    case = {"rule": rule, "part": "two cells of one layer on one trainer", "T": T, "batch=histories": B}
+    tally.add("evaluations")
+    try:
+        def conn(d):
+            c = LinearDense((1,), (1,), dt, synapse=DeltaCurrent.partialconstructor(spike_charge=dt), delay=2.0, batch_size=B,
+                            weight_init=lambda w: torch.full_like(w, 0.5), delay_init=lambda x: torch.full_like(x, d))
+            c.updater = c.defaultupdater()
+            return c
+        layer = Biclique([("a", conn(1.0)), ("b", conn(0.0))], [("x", ExactNeuron((1,), dt, rest_v=-60.0, thresh_v=-45.0, batch_size=B))])
+        tr = make(rule, "hebbian")
+        tr.register_cell("a", layer.get_cell("a", "x"))
+        tr.register_cell("b", layer.get_cell("b", "x"))
+        for t in range(T):
+            xa = torch.tensor([[h[t][0]] for h in hs], dtype=torch.bool)
+            xb = torch.tensor([[h[t][1]] for h in hs], dtype=torch.bool)
+            y = torch.tensor([[h[t][2]] for h in hs], dtype=torch.bool)
+            layer({"a": (xa,), "b": (xb,)}, neuron_kwargs={"x": {"override": y}})
+            tr()
+    except Exception as ex:
+        tally.violation(f"exception:shared-layer:{rule}:{type(ex).__name__}", case, f"{type(ex).__name__}: {ex}", None, repr(ex))
+        return tally
+    post = torch.stack([spec.post_ref([[h[t][2]] for h in hs]) for t in range(T)], 0)
+    for ci, (cname, d) in enumerate((("a", 1.0), ("b", 0.0))):
+        pre_syn = torch.stack([spec.pre_syn([[h[t][ci]] for h in hs]) for t in range(T)], 0)
+        Ks = [torch.full((1, 1), d, dtype=F64) for _ in range(T)]
+        ref = reference(rule, "hebbian", dt, pre_syn, post, Ks, None, 1.0)
+        exp = spec.to_weight_space(ref.sum(0))
+        acc = getattr(layer.get_connection(cname).updater, param)
+        z = torch.zeros(B, *spec.wshape, dtype=F64)
+        got = (z if acc.pos is None else acc.pos.to(F64)) - (z if acc.neg is None else acc.neg.to(F64))
+        diff = (got - exp).abs().reshape(B, -1).amax(1)
+        bi = (diff > 1e-5).nonzero().reshape(-1)
+        if len(bi):
+            b = int(bi[0])
+            tally.violation(f"shared-layer:{rule}:cell-{cname}", {**case, "history(pre_a,pre_b,post)": hs[b]},
+                            f"cell '{cname}' accumulated {got[b].reshape(-1).tolist()} but the formula on its own spike times gives {exp[b].reshape(-1).tolist()}",
+                            exp[b].tolist(), got[b].tolist())
+    tally.mark("nontrivial", ("shared-layer", rule, T))
+    tally.add("histories", B)
+    return tally
+
+
+def cross_reduction_shard(redname):
+    """kernel STDP reproduces delay-adjusted STDP also under a non-additive batch reduction (amax, median over a batch of three):
+    potentiative-only rates (both halves non-negative), every triple built from pairs of histories of length 2, parts compared"""
+    tally = Tally()
+    spec = Cellspec("dense", 1, 1)
+    dt, T = 1.0, 2
+    hs = all_histories(T, 2)
+    red = {"amax": torch.amax, "median": lambda x, dim: torch.quantile(x, 0.5, dim=dim, interpolation="nearest")}[redname]
+    for ha, hb in itertools.product(hs, hs):
+        trio = [ha, hb, hs[(hs.index(ha) + 5) % len(hs)]]
+        case = {"rules": ["da-stdp", "da-kernel"], "reduction": redname, "sign": "pot", "histories": trio}
+        tally.add("evaluations")
+        try:
+            outs = []
+            for rule in ("da-stdp", "da-kernel"):
+                layer = spec.build(dt, 3, 2.0, torch.full(spec.wshape, 1.0))
+                tr = make(rule, "pot", red)
+                tr.register_cell("cell", layer.cell)
+                for t in range(T):
+                    step_layer(layer, spec.pre_tensor([h[t][:1] for h in trio]), spec.post_tensor([h[t][1:] for h in trio]))
+                    tr()
+                acc = layer.connection.updater.weight
+                outs.append([None if x is None else x.detach().clone() for x in (acc.pos, acc.neg)])
+        except Exception as ex:
+            tally.violation(f"exception:cross-reduction:{redname}:{type(ex).__name__}", case, repr(ex))
+            break
+        for i, nm in enumerate(("pos", "neg")):
+            a, b = outs[0][i], outs[1][i]
+            za = torch.zeros(spec.wshape) if a is None else a
+            zb = torch.zeros(spec.wshape) if b is None else b
+            if za.shape != zb.shape or not torch.allclose(za, zb, atol=1e-6):
+                tally.violation(f"cross-reduction:{redname}:{nm}", case, f"{nm} part: delay-adjusted STDP {za.reshape(-1).tolist()} vs kernel STDP with the same rates "
+                                f"{zb.reshape(-1).tolist()} under {redname}", za.tolist(), zb.tolist())
+        if ha != hb:
+            tally.mark("nontrivial", ("cross-reduction", redname, tuple(map(tuple, ha)), tuple(map(tuple, hb))))
+    tally.sample({"part": "kernel vs delay-adjusted under a non-additive reduction", "reduction": redname})
+    return tally
+
+
 def run(rep):
     quick = rep.tier == "quick"
     T1 = 4 if quick else 5
@@ -404,6 +497,10 @@ def run(rep):
     for rule in ("da-stdp", "da-stdpd", "da-mstdp", "da-mstdpd", "da-kernel", "da-kerneld"):
         for sign in list(SIGNS) + (list(SIGNS_ZERO) if rule in ("da-stdp", "da-stdpd", "da-mstdp", "da-mstdpd") else []):
             jobs.append((shard, (rule + "+ov", "dense", (1, 1), T1 - 1, 1.0, sign, "const")))
+    for rule in ("da-stdp", "da-stdpd", "da-kernel", "da-kerneld"):
+        jobs.append((shared_layer_shard, (rule, 3)))
+    for redname in ("amax", "median"):
+        jobs.append((cross_reduction_shard, (redname,)))
     # per-sample reward tensors on cells whose weight is not 2-D (batched step = sum of the per-sample steps; shared with C11)
     import checks.c11_batch as c11
     for rule in ("da-mstdp", "da-mstdpd"):
